@@ -624,7 +624,7 @@ where
         // and reset the time to what it was previously.
         if self.yield_memory == O + 1 {
             // We took Order - 1 runge kutta steps at this dt
-            self.time -= self.dt - self.order;
+            self.time -= self.dt * self.order;
             self.state = self.save_state.clone();
         }
 
